@@ -67,9 +67,9 @@ def rule_exits(ctx, repo):
                 val = a.value
                 if isinstance(val, ast.IfExp) and Q.match("self.converged", val.test) is not None and src(val.body) == "0" and src(val.orelse) not in ("0",):
                     tied.append(n)
-                elif any(Q.match("not self.converged", f.g.data(t_)["ast"].test) is not None and f.g.guarded_by(n, t_, "true")
-                         for t_ in f.g.nodes() if f.g.data(t_)["kind"] == "test"):
-                    tied.append(n)
+                else:
+                    tied += [t_ for t_ in f.g.nodes() if f.g.data(t_)["kind"] == "test" and hasattr(f.g.data(t_)["ast"], "test")
+                             and Q.match("not self.converged", f.g.data(t_)["ast"].test) is not None and f.g.guarded_by(n, t_, "true")]
             ok = src(v) == "self.converged" and bool(tied) and f.g.must_pass(f.g.entry, r, tied)[0]
             ctx.check(ok, "C17.exit", "PFlow.run/return@%s" % src(v), "returns the verdict; the exit code is raised iff not converged",
                       "PFlow.run's final return is not tied to an exit-code update that depends on `self.converged`", f.W(r))
